@@ -1,11 +1,13 @@
 import Drv.Browser
 import Drv.Diag
+import Drv.Slice
 open Lean
 
 def dispatch (model : String) (j : Json) : Except String Json :=
   match model with
   | "browser" => Drv.Browser.run j
   | "diag" => Drv.Diag.run j
+  | "slice" => Drv.Slice.run j
   | "diagreads" => Drv.Diag.runReads j
   | _ => throw s!"bad-model {model}"
 
